@@ -70,6 +70,7 @@ func blockedBubbleGoroutines() []string {
 
 // Settle lets virtual time pass and returns at a quiescent point.
 func Settle(d time.Duration) {
+	Heartbeat() // (a scenario that keeps reaching quiescent points is making progress, however slow the machine)
 	if d > 0 {
 		time.Sleep(d)
 	}
